@@ -16,6 +16,7 @@ import (
 	"sync/atomic"
 	"syscall"
 	"time"
+	"unicode/utf8"
 
 	"google.golang.org/protobuf/proto"
 
@@ -1040,6 +1041,20 @@ func (x *c21Run) stageAndSupply(src, dst string) stepOutcome {
 	return stepOutcome{kind: "stage", class: class + "," + out.class}
 }
 
+func describeChanges(cs []*core.Change) []string {
+	var out []string
+	for _, c := range cs {
+		kind := func(e *core.Entry) string {
+			if e == nil {
+				return "nil"
+			}
+			return fmt.Sprintf("%s(%d entries)", e.Kind, e.Count())
+		}
+		out = append(out, fmt.Sprintf("%q: %s -> %s", c.Path, kind(c.Old), kind(c.New)))
+	}
+	return out
+}
+
 func firstDigest(fs []fileRef) []byte {
 	if len(fs) > 0 {
 		return fs[0].digest
@@ -1193,7 +1208,15 @@ func (x *c21Run) transition(src, dst string) stepOutcome {
 	x.r.Count("transitions", 1)
 	x.r.Count("transition_changes", int64(len(valid)))
 	if (errs[0] == nil) != (errs[1] == nil) {
-		x.violation("error-mismatch", "Transition", fmt.Sprintf("local error %s, remote error %s", errText(errs[0]), errText(errs[1])), nil)
+		sig := map[string]string{"rule": "error-mismatch", "operation": "Transition"}
+		var lp []string
+		for _, p := range rawProblems[0] {
+			lp = append(lp, fmt.Sprintf("%q: %q", p.Path, p.Error))
+			if !utf8.ValidString(p.Path) || !utf8.ValidString(p.Error) {
+				sig["case"] = "non-utf8-name-in-transition-problem"
+			}
+		}
+		x.violationSig(sig, fmt.Sprintf("local error %s, remote error %s", errText(errs[0]), errText(errs[1])), map[string]any{"local_problems": lp, "transitions": describeChanges(valid)})
 		return stepOutcome{kind: "transition", fatal: true}
 	}
 	if errs[0] != nil {
@@ -1549,12 +1572,14 @@ func runC21Program(r *vk.Run, p *c21Program, hb *heartbeat) {
 	select {
 	case <-done:
 	case <-time.After(10 * time.Minute):
+		buf := make([]byte, 4<<20)
+		dump := buf[:runtime.Stack(buf, true)]
 		if time.Duration(hb.maxGapNs.Load()) >= time.Second {
 			r.Inconclusive("program-timeout-on-unhealthy-scheduler")
+			fmt.Printf("C21 program %d exceeded 10 minutes (step %d) on an unhealthy scheduler (max heartbeat gap %v): inconclusive; goroutines:\n%s\n", p.Index, x.step, time.Duration(hb.maxGapNs.Load()), dump)
 		} else {
 			x.violation("hang", "program", "no progress for 10 minutes with a healthy scheduler; goroutine dump follows in the log", map[string]any{"stacks": string(debug.Stack())})
-			buf := make([]byte, 1<<20)
-			fmt.Printf("%s\n", buf[:runtime.Stack(buf, true)])
+			fmt.Printf("%s\n", dump)
 		}
 		// unblock whatever is stuck
 		for _, c := range x.R.streams {
@@ -1583,7 +1608,7 @@ func runC21Program(r *vk.Run, p *c21Program, hb *heartbeat) {
 func c21() {
 	r := vk.Start("C21", "exploration")
 	debug.SetGCPercent(400)
-	n := r.Pick(40, 1000)
+	n := r.Pick(40, 600)
 	steps := 15
 	seeds := make([]int64, n)
 	rng := r.Rand("programs")
